@@ -233,3 +233,25 @@ Qed.
 
 Theorem variant_b_lexvar hf r doc : variant_b (rfc_write hf r) doc = true -> lexvar (rfc_write hf r) doc.
 Proof. apply variant_sound, canon_rfc_write. Qed.
+
+(** the form without comp *)
+Lemma canon_rfc_write_nc hf r : canon_b (rfc_write_nc hf r) = true.
+Proof.
+  unfold rfc_write_nc, rfc_write_x, w_dprop_x, w_caldata_nc.
+  destruct r as [q|m]; cbn [canon_b req_cr].
+  - change (pcdata (cn "calendar-query")) with false. cbv iota. cbn [forallb is_elem andb canon_b].
+    change (pcdata (dn "prop")) with false. change (pcdata (dn "getetag")) with false.
+    change (pcdata (cn "calendar-data")) with false. change (pcdata (cn "filter")) with false.
+    cbv iota. cbn [forallb is_elem andb].
+    rewrite canon_cf. replace (is_elem (w_cf (q_cf q))) with true by now destruct (q_cf q).
+    destruct (cr_expand (q_cr q)) as [[s e]|]; reflexivity.
+  - change (pcdata (cn "calendar-multiget")) with false. cbv iota. cbn [forallb is_elem andb canon_b].
+    change (pcdata (dn "prop")) with false. change (pcdata (dn "getetag")) with false.
+    change (pcdata (cn "calendar-data")) with false. cbv iota. cbn [forallb is_elem andb].
+    assert (H : forallb (fun x => is_elem x && canon_b x) (map (w_href hf) (mg_paths m)) = true).
+    { apply canon_kids_map. intros x _. unfold w_href. now rewrite canon_text_elem. }
+    rewrite H. destruct (cr_expand (mg_cr m)) as [[s e]|]; reflexivity.
+Qed.
+
+Theorem variant_b_lexvar_nc hf r doc : variant_b (rfc_write_nc hf r) doc = true -> lexvar (rfc_write_nc hf r) doc.
+Proof. apply variant_sound, canon_rfc_write_nc. Qed.
